@@ -22,7 +22,8 @@ EXPLANATION = (
     'inputs * transpose(kernel) over the last (input) axis, never the batch '
     'axis (X2); the bias is added exactly under use_bias and created only '
     'then (W2); the constraint object receives every hyperparameter (W1). The '
-    'consequences listed in the property follow from C06 plus this structure.')
+    'consequences listed in the property follow from C06 plus this structure.'
+    ' Numeric bounds (0.0 included) are never truth-tested, element variables of the bound lists included (N0).')
 ASSUMPTIONS = ['tf.matmul / tf.reduce_sum / tf.clip_by_value semantics',
                'kernel layout (num_input_dims, units) as created in build()']
 
